@@ -330,7 +330,9 @@ class Blob(Column):
             raise Exception("expecting a binary, got a %s" % type(value))
 
         val = super(Bytes, self).to_database(value)
-        return bytearray(val)
+        # an immutable (hashable) binary, so that blobs can be members of set values and keys of map values;
+        # the CQL encoder renders bytes and bytearray identically
+        return bytes(val)
 
 
 Bytes = Blob
